@@ -34,6 +34,10 @@ public:
 private:
 	HFSM2_IF_ASSERT(void verifyStructure(const Index occupied = INVALID)  const noexcept);
 
+#ifdef HFSM2_VERIF // verification hook: read-only probe
+	friend struct ::hfsm2_verif::Probe;
+#endif
+
 private:
 	Index _vacantHead = 0;
 	Index _vacantTail = 0;
